@@ -240,6 +240,26 @@ def run(phase, cases, ctx):
                     if fam:
                         violations.append({'kind': 'family-transpose-rejected', 'case': one, 'detail': f'{sub} -> {getattr(opT, "subscripts", "?")}: {e}'})
                     continue
+                # einsum is bilinear: as a JAX function of the operator (its blocks are its only arrays) the tangent of op.mv(x)
+                # along dB is einsum(sub, dB, x), and likewise through op.T - differentiating with respect to the operator
+                if fam or counters['T_exact'] % 8 == 0:
+                    dB = jnp.asarray(((np.arange(B.size) % 3) - 1.0).reshape(B.shape).astype(np.float32))
+                    try:
+                        dop = jax.tree.map(lambda l: dB if l.shape == dB.shape else jnp.zeros_like(l), op)
+                        t = np.asarray(jax.jvp(lambda o: o.mv(jnp.asarray(x)), (op,), (dop,))[1])
+                        yv = (np.arange(ref.size) % 4 + 1.0).reshape(ref.shape).astype(np.float32)
+                        dopT = jax.tree.map(lambda l: dB if l.shape == dB.shape else jnp.zeros_like(l), opT)
+                        tT = np.asarray(jax.jvp(lambda o: o.mv(jnp.asarray(yv)), (opT,), (dopT,))[1])
+                    except Exception:  # noqa: BLE001 - differentiation with respect to the operator is not promised to be supported
+                        counters['block_tangent_unsupported'] += 1
+                    else:
+                        counters['block_tangents'] += 1
+                        wt = np.einsum(sub, np.asarray(dB), x)
+                        wT = np.einsum(opT.subscripts, np.asarray(dB), yv) if np.array_equal(MT, M.T) and MT.shape == M.T.shape else tT
+                        if t.shape != wt.shape or not np.array_equal(t, wt):
+                            violations.append({'kind': 'not-einsum-in-the-blocks', 'case': one, 'detail': f'{sub}: tangent of op.mv(x) along dB is {t.ravel()[:6]}, einsum(sub, dB, x) = {wt.ravel()[:6]}'})
+                        elif tT.shape != np.shape(wT) or not np.array_equal(tT, wT):
+                            violations.append({'kind': 'transpose-not-einsum-in-the-blocks', 'case': one, 'detail': f'{sub}: tangent of op.T.mv(y) along dB is {tT.ravel()[:6]}, expected {np.asarray(wT).ravel()[:6]}'})
                 if MT.shape == M.T.shape and np.array_equal(MT, M.T):
                     counters['T_exact'] += 1
                     if fam:
